@@ -96,7 +96,7 @@ func VerifH_C03_resume() {
 	jp2.jobs[7] = job2
 	verifSeekPos = -1
 	verifStart, verifAvail = 0, int(pos) // the file still holds every line
-	jp2.initEofInfo(job2) // as addJob does before positioning the job
+	jp2.initEofInfo(job2)                // as addJob does before positioning the job
 	jp2.initJobOffset(offsetsOpContinue, job2)
 	vf.Assert(verifSeekPos >= 0, "resume-seeks")
 	plugin := &Plugin{jobProvider: jp2}
